@@ -144,7 +144,10 @@ def run(res, f, tier):
     res.floor("bodies reachable from evaluation", len(reach), 90)
     res.floor("fields of the data types", nfields, 60)
     res.floor("await points", yields, 70)
+    import control
+    controls = control.effect_controls()
     res.coverage = {
+        "positive_controls": controls,
         "explanation": "type-level and call-graph premises of determinism: statics (%d), fields of the %d data types (%d), hand-written unsafe (%d), entry-point signatures (3), "
                        "resolved callees reachable from the entry points (%d call sites in %d bodies) against a deny-list, suspension points (%d, all `.await`), hand-written Future impls (%d)"
                        % (len(f.statics), len(DATA_TYPES), nfields, len(user_unsafe), ncalls, len(reach), yields, len(fut_impls)),
